@@ -232,7 +232,10 @@ def r2c_iteration_tables(rep, facts, rid='C16/R2c'):
     key = lambda i: ('struct', 'toml_edit::key::Key', {'key': ('key', i), 'repr': ('opaque',), 'leaf_decor': ('opaque',), 'dotted_decor': ('opaque',)})
     val = lambda i: ('ctor', 'toml_edit::item::Item::Value', (('elem', i),))
     tab = lambda i: ('ctor', 'toml_edit::item::Item::Table', (('elem', i),))
-    cases = [('toml_edit::table::Table', 'items', True, val), ('toml_edit::inline_table::InlineTable', 'items', True, val),
+    aot = lambda i: ('ctor', 'toml_edit::item::Item::ArrayOfTables', (('elem', i),))
+    # a standard table holds every kind of item: its real entries are a value, a sub-table and an array of tables
+    anyitem = lambda i: {0: val, 2: tab, 3: aot}.get(i, val)(i)
+    cases = [('toml_edit::table::Table', 'items', True, anyitem), ('toml_edit::inline_table::InlineTable', 'items', True, val),
              ('toml_edit::array::Array', 'values', False, val), ('toml_edit::array_of_tables::ArrayOfTables', 'values', False, tab)]
     for ty, field, ismap, mk in cases:
         if ty not in facts.adts:
@@ -313,6 +316,30 @@ def r2d_lookup_tables(rep, facts, rid='C16/R2d'):
                   f'{"absent" if absent(rm) else "found"} — a key that iteration, len() and printing do not show can be looked up (or the reverse)', facts.loc(b))
 
 
+def r2e_typed_lookups(rep, facts, rid='C16/R2e'):
+    R = rep.rule(rid, 'the typed lookups of Table answer for the kind they name: on a table holding a scalar, an inline table, a sub-table, an array of tables and a '
+                 'placeholder, contains_table / contains_value / contains_array_of_tables are true exactly where get(key) is an item of that kind (evaluated)', floor=3)
+    from .den import Interp, Evaluator, Unanalysable, EvalPanic
+    I, V = 'toml_edit::item::Item::', 'toml_edit::value::Value::'
+    key = lambda n: ('struct', 'toml_edit::key::Key', {'key': n, 'repr': ('opaque',), 'leaf_decor': ('opaque',), 'dotted_decor': ('opaque',)})
+    entries = (('scalar', ('ctor', I + 'Value', (('ctor', V + 'Integer', (('elem', 0),)),))), ('inline', ('ctor', I + 'Value', (('ctor', V + 'InlineTable', (('elem', 1),)),))),
+               ('table', ('ctor', I + 'Table', (('elem', 2),))), ('array_of_tables', ('ctor', I + 'ArrayOfTables', (('elem', 3),))), ('ghost', ('ctor', I + 'None')))
+    tab = ('struct', 'toml_edit::table::Table', {'items': tuple((key(n), it) for n, it in entries), 'dotted': False, 'implicit': False})
+    want = {'contains_table': {'table'}, 'contains_value': {'scalar', 'inline'}, 'contains_array_of_tables': {'array_of_tables'}, 'contains_key': {'scalar', 'inline', 'table', 'array_of_tables'}}
+    for m, yes in want.items():
+        d = 'toml_edit::table::Table::' + m
+        if not facts.has_body(d):
+            rep.incomplete(R, m, f'`{d}` not found')
+            continue
+        b = facts.body(d)
+        try:
+            got = {n for n in [x for x, _ in entries] + ['missing'] if Interp(Evaluator(facts)).apply_fn(b, [tab, n]) is True}
+        except (Unanalysable, EvalPanic) as e:
+            rep.incomplete(R, m, f'cannot evaluate `{d}`: {e}', facts.loc(b))
+            continue
+        rep.check(R, m, got == yes, f'true for {sorted(yes)}', f'`{d}` is true for the entries {sorted(got)}, the kind it names is held by {sorted(yes)}: the typed lookup contradicts get()', facts.loc(b))
+
+
 def r5b_iterator_wrappers(rep, facts):
     R = rep.rule('C16/R5b', 'the iterator types of toml::Map (Iter, IterMut, IntoIter, Keys, Values) forward every method of Iterator / DoubleEndedIterator / '
                  'ExactSizeIterator to the method of the same name of the wrapped iterator (iteration from the back really comes from the back)', floor=15)
@@ -377,6 +404,7 @@ def rules(rep, facts):
         r2_placeholders(rep, facts)
         r2c_iteration_tables(rep, facts)
         r2d_lookup_tables(rep, facts)
+        r2e_typed_lookups(rep, facts)
         r4_key_identity(rep, facts)
         r6_sorting(rep, facts)
         r7_bulk_insert(rep, facts)
